@@ -35,6 +35,14 @@ def _witnesses(rel):
     if rel not in _cache["w"]:
         s = set()
         p = os.path.join(ROOT, rel)
+        if os.path.exists(p + ".gz"):
+            import gzip
+
+            with gzip.open(p + ".gz", "rt") as f:
+                for line in f:
+                    line = line.strip()
+                    if line:
+                        s.add(line)
         if os.path.exists(p):
             with open(p) as f:
                 for line in f:
